@@ -25,6 +25,25 @@ class UA:
     def __repr__(self):
         return 'UA(%s)' % self.tag
 
+    def _vf_getattr(self, interp, name):
+        if name == 'source_value':
+            return lambda: self.source_value(interp)
+        raise EngineLimit('attribute %s of an input annotation token' % name)      # never a Python-level AttributeError
+
+    def source_value(self, interp):
+        """the wrapper's REAL behaviour: a pre-evaluated wrapper returns the object, a postponed one evaluates the
+        expression in the globals of its function (external ``eval``: may run arbitrary code)"""
+        c = sym.CTX()
+        if not c.decide(self.has):
+            return EMPTY
+        fn = self.function
+        if fn is not None and c.decide(fn.postponed):
+            from .world import Globals
+            if interp.external_call is None:
+                raise EngineLimit('eval without a model')
+            return interp.external_call(interp, 'eval', [SymVal(self.raw), Globals(fn), {}], [])
+        return SymVal(self.raw)
+
     def _vf_eq(self, other):
         """UpgradedAnnotation.__eq__: source_value() == source_value() (the empty annotation's is ``empty``)"""
         c = sym.CTX()
